@@ -286,6 +286,41 @@ def run_job(job, acc):
                                    'tokens': slim(tokens), 'stmt_toks': slim(stmt_toks)})
                     break
                 acc.count('planted_error_locations_confirmed')
+            if ok and kind == 'spaces':
+                # the reference trace: every "Referenced in a subword context" note must point at a reference on
+                # the way from a call variant to the space-separated literals (a nonterminal whose definition,
+                # directly or through others, contains them); which of those the compiler lists is its business
+                bodies = {st[1]: st[3] for st in stmts if st[0] == 'def' and st[2] is None}
+                reach = {}
+
+                def reaches(name, stack=()):
+                    if name in reach:
+                        return reach[name]
+                    if name in stack or name not in bodies:
+                        return False
+                    v = False
+                    for x in gast.walk(bodies[name]):
+                        if x[0] == 'lit' and x[1] == 'pb':
+                            v = True
+                        elif x[0] == 'nt' and reaches(x[1], stack + (name,)):
+                            v = True
+                    reach[name] = v
+                    return v
+                acc.count('reference_traces_compared')
+                for d in diags:
+                    if not d['msg'].startswith('Referenced in a subword'):
+                        continue
+                    here = [t for t in tokens if (t['line'], t['col']) == (d['line'], d['col']) and t['kind'] == 'nt']
+                    if not here or not reaches(here[0]['payload'][1]):
+                        ok = False
+                        acc.violation({'sig': 'reference-trace-points-elsewhere', 'grammar': text,
+                                       'what': 'a "Referenced in a subword context" note points at %d:%d (%s), which is '
+                                               'not a reference through which the space-separated literals are reached'
+                                               % (d['line'], d['col'], here[0]['payload'][1] if here else 'no reference'),
+                                       'observed': '%d:%d' % (d['line'], d['col']),
+                                       'meta': {'shell': shell, 'label': label, 'seed': s, 'i': i},
+                                       'tokens': slim(tokens), 'stmt_toks': slim(stmt_toks)})
+                        break
         if nd:
             acc.seen(text)
             if lay is not None and text.count('\n') > 2:
